@@ -114,6 +114,10 @@ func init() {
 		Technique: "contract-based deductive verification: Bond/Unbond issue and redeem at the live rate (postconditions over the same fixed-point terms the code computes, rounding made explicit), exact integer 90% cap on Borrow; VCs from go/ssa discharged by z3/cvc5"})
 	register(&PropSpec{ID: "C12", Level: "proof", Contracts: true,
 		Technique: "contract-based deductive verification: ledger spec functions (committedOf, lockedFor) with type-level contracts (collections bounded), keeper-level delta contracts over ghost aggregates, hook frame checked against its implementation; VCs from go/ssa discharged by z3/cvc5"})
+	register(&PropSpec{ID: "C17", Level: "proof", Contracts: true, Extra: c17Extra,
+		Technique: "contract-based deductive verification: a generated contract {msg.authority != k.authority} H {err != nil, world unchanged} for every mechanically enumerated governance handler, owner-only postconditions on owner-scoped handlers; path VCs from go/ssa"})
+	register(&PropSpec{ID: "C20", Level: "proof", Contracts: true,
+		Technique: "contract-based deductive verification: escrow conservation and owner-only postconditions over the ghost bank on every tradeshield order handler and execution helper (error exits included where the caller swallows errors), trigger conditions tied to the module's own price call; VCs from go/ssa discharged by z3/cvc5"})
 	register(&PropSpec{ID: "C14", Level: "proof", Contracts: true,
 		Technique: "contract-based deductive verification: strongest postcondition of VestedSoFar against the linear spec function, claim/cancel delta contracts, VCs from go/ssa discharged by z3/cvc5"})
 }
